@@ -1722,7 +1722,8 @@ impl OutstationSession {
                         controls.hash(),
                     ) {
                         Err(status) => {
-                            controls.respond_with_status(&mut cursor, status).unwrap();
+                            // the echo may not fit the transmit buffer, it is then truncated
+                            let _ = controls.respond_with_status(&mut cursor, status);
                             status
                         }
                         Ok(()) => {
@@ -1731,6 +1732,8 @@ impl OutstationSession {
                                 self.control_handler.borrow_mut(),
                                 database,
                                 |tx, db| {
+                                    // the echo may not fit the transmit buffer, it is then
+                                    // truncated as it is for SELECT and DIRECT_OPERATE
                                     controls
                                         .operate_with_response(
                                             &mut cursor,
@@ -1739,7 +1742,7 @@ impl OutstationSession {
                                             db,
                                             max_controls_per_request,
                                         )
-                                        .unwrap()
+                                        .unwrap_or(CommandStatus::TooManyOps)
                                 },
                             )
                             .await
@@ -1748,7 +1751,7 @@ impl OutstationSession {
                 }
                 None => {
                     let status = CommandStatus::NoSelect;
-                    controls.respond_with_status(&mut cursor, status).unwrap();
+                    let _ = controls.respond_with_status(&mut cursor, status);
                     status
                 }
             };
